@@ -63,9 +63,10 @@ type zzAddr struct{}
 func (zzAddr) Network() string { return "zz" }
 func (zzAddr) String() string  { return "10.1.2.3:3868" }
 
-// zzLockedConn is a transport that checks, inside Write, that the connection's write lock is held.
+// zzLockedConn is a recording transport (zz_verif_c07l.go adds the check that the connection's write
+// lock is held inside Write).
 type zzLockedConn struct {
-	w        *response
+	held     func() bool // nil, or: is the connection's write lock held right now
 	got      []byte
 	writes   int
 	unlocked int
@@ -75,7 +76,7 @@ type zzLockedConn struct {
 func (c *zzLockedConn) Read(p []byte) (int, error) { return 0, &zzNetErr{} }
 func (c *zzLockedConn) Write(p []byte) (int, error) {
 	c.writes++
-	if c.w != nil && !vHeld(&c.w.mu) {
+	if c.held != nil && !c.held() {
 		c.unlocked++
 	}
 	c.got = append(c.got, p...)
@@ -88,9 +89,9 @@ func (c *zzLockedConn) SetDeadline(t time.Time) error      { return nil }
 func (c *zzLockedConn) SetReadDeadline(t time.Time) error  { return nil }
 func (c *zzLockedConn) SetWriteDeadline(t time.Time) error { return nil }
 
-// zzC07_locked: every path of response.Write / WriteStream: the transport is only written while the
-// connection's write lock is held, and one critical section carries exactly one whole message
-// (sizes below / above / exactly at the 1 KiB serialisation pool and the 4 KiB bufio buffer).
+// zzC07_locked: every path of response.Write / WriteStream: one write call delivers exactly one whole
+// message to the transport, at once (sizes below / above / exactly at the 1 KiB serialisation pool and
+// the connection's buffered writer). The lock-discipline half lives in zzC07_lockheld.
 func zzC07_locked() {
 	d := vAbstractDict()
 	rw := &zzLockedConn{}
@@ -100,10 +101,9 @@ func zzC07_locked() {
 	}
 	c, err := srv.newConn(rw)
 	vAssume(err == nil)
-	rw.w = c.writer
 	// payload sizes: small, above the serialisation pool, above the bufio buffer, and the serialised
 	// message (28 + payload) landing just below / exactly on / just above each of the two buffer sizes
-	pool, wbuf := MessageBufferLength, c.buf.Writer.Size()
+	pool, wbuf := MessageBufferLength, 4096 // (bufio's default size; zzC07_lockheld reads the real one)
 	size := [9]int{8, 1100, wbuf + 104, pool - 32, pool - 28, pool - 24, wbuf - 32, wbuf - 28, wbuf - 24}[vChoice("size", vParam("SIZES", 9))]
 	var all []byte
 	for i := 0; i < vParam("MSGS", 2); i++ {
@@ -114,11 +114,9 @@ func zzC07_locked() {
 		before := len(rw.got)
 		n, werr := m.WriteTo(c.writer)
 		vAssert(werr == nil && int(n) == len(want), "write succeeds")
-		vAssert(!vHeld(&c.writer.mu), "write lock released after the write")
 		vAssert(len(rw.got)-before == len(want), "one write call delivers exactly one whole message to the transport")
 		all = append(all, want...)
 	}
-	vAssert(rw.unlocked == 0, "the transport is written only while the connection's write lock is held")
 	zzBytesEq(rw.got, all, "messages reach the transport whole, in order, un-interleaved")
 	vReach("C07_locked")
 }
